@@ -104,6 +104,45 @@ def run(tier, rep, cov):
         x = trans[int(m.group(1)) - 1]
         rep.violation("tracker:%s:%s" % (x["op"]["op"], json.dumps(x["pre"], sort_keys=True)[:80]),
                       "DependencyTracker.%s from state %s gives %s / %s, not what TrackerCore!Step gives" % (x["op"], x["pre"], x["post"], x["ret"]), {"kind": "tracker-transition", "transition": x})
+    apalache_step(tier, rep, cov)
     cov["tracker_model_states"] = mc.distinct
     cov["tracker_real_states"] = nstates
     cov["tracker_real_transitions_validated"] = len(trans)
+
+
+def apalache_step(tier, rep, cov):
+    """The bookkeeping with bounded lists (spec/apalache/TrackerApa.tla): TLC explores its WHOLE state graph (finite: histories
+    of any length) and checks on every state that each method agrees with TrackerCore!Step; in the thorough tier Apalache
+    additionally shows that the invariant is inductive (base case and step)."""
+    import subprocess
+    apa = os.path.join(common.SPEC, "apalache")
+    work = common.mkwork()
+    try:
+        for f in ("TrackerApa.tla", "TrackerApaEq.tla", "TrackerApaEq.cfg"):
+            shutil.copy(os.path.join(apa, f), work)
+        shutil.copy(os.path.join(apa, "tlcstub", "Apalache.tla"), work)
+        eq = common.run_tlc("TrackerApaEq", os.path.join(work, "TrackerApaEq.cfg"), cwd=work, timeout=1800)
+        if eq.violated:
+            for v in eq.violated:
+                rep.violation("tracker-bounded-lists:%s" % v, eq.error_excerpt(60), {"kind": "tlc-counterexample"})
+        elif not eq.ok:
+            raise common.MachineryError("TLC failed on TrackerApaEq.tla:\n" + eq.error_excerpt(40))
+        cov["tracker_bounded_lists_states_all_histories"] = eq.distinct
+        if tier == "thorough":
+            os.remove(os.path.join(work, "Apalache.tla"))        # Apalache brings its own
+            outcomes = []
+            for args in (["--init=Init", "--inv=IndInv", "--length=0"], ["--init=IndInit", "--inv=IndInv", "--length=1"]):
+                env = dict(os.environ)
+                env.pop("JAVA_TOOL_OPTIONS", None)
+                p = subprocess.run(["apalache-mc", "check"] + args + ["--out-dir=" + os.path.join(work, "apa-out"), "TrackerApa.tla"], cwd=work, env=env,
+                                   stdout=subprocess.PIPE, stderr=subprocess.STDOUT, text=True, timeout=3000)
+                if "The outcome is: NoError" in p.stdout:
+                    outcomes.append("NoError")
+                elif "The outcome is: Error" in p.stdout:
+                    outcomes.append("Error")
+                    rep.violation("tracker-inductive:%s" % " ".join(args), p.stdout[-1500:], {"kind": "apalache-counterexample"})
+                else:
+                    raise common.MachineryError("apalache-mc failed:\n" + p.stdout[-1500:])
+            cov["apalache_inductive_invariant"] = {"base_case": outcomes[0], "step": outcomes[1], "invariant": "TypeOK /\\ Shape /\\ ExactlyOnce /\\ MetIsMet /\\ NeverEarly"}
+    finally:
+        common.rmwork(work)
